@@ -86,6 +86,30 @@ func (t *tr) call(x *ast.CallExpr, tv types.TypeAndValue, pre *[]hoist, underSC 
 			return "(go_" + f.Name + " " + strings.Join(args, " ") + ")"
 		}
 	case *ast.SelectorExpr:
+		if p, ok := f.X.(*ast.Ident); ok && p.Name == "math" && len(args) == 1 {
+			if pn, ok := t.info.Uses[p].(*types.PkgName); ok && pn.Imported().Path() == "math" {
+				switch f.Sel.Name {
+				case "Float32frombits", "Float64frombits", "Float32bits", "Float64bits":
+					return args[0] // floats are carried as their bit patterns
+				}
+			}
+		}
+		if le, ok := f.X.(*ast.SelectorExpr); ok && le.Sel.Name == "LittleEndian" && len(args) == 1 {
+			if p, ok := le.X.(*ast.Ident); ok {
+				if pn, ok := t.info.Uses[p].(*types.PkgName); ok && pn.Imported().Path() == "encoding/binary" {
+					w := map[string]string{"Uint32": "4", "Uint64": "8", "Uint16": "2"}[f.Sel.Name]
+					if w != "" {
+						if underSC {
+							fail(t, x, "binary.LittleEndian read under && or ||")
+						}
+						t.tmp++
+						n := fmt.Sprintf("t%d", t.tmp)
+						*pre = append(*pre, hoist{n, "(go_le_get " + w + " " + args[0] + ")"})
+						return n
+					}
+				}
+			}
+		}
 		if p, ok := f.X.(*ast.Ident); ok && p.Name == "bits" && f.Sel.Name == "Len64" {
 			if pn, ok := t.info.Uses[p].(*types.PkgName); ok && pn.Imported().Path() == "math/bits" {
 				return "(go_bits_Len64 " + args[0] + ")"
@@ -488,9 +512,17 @@ func (t *tr) assign(x *ast.AssignStmt, e env, rest func(env) string) string {
 	return t.withPre(x, pre, letPat(names, tuple(vals), rest(e2)))
 }
 
+func isFloat(ty types.Type) bool {
+	b, ok := ty.Underlying().(*types.Basic)
+	return ok && (b.Kind() == types.Float32 || b.Kind() == types.Float64)
+}
+
 func (t *tr) coqType(n ast.Node, ty types.Type) string {
 	if _, ok := t.intType(ty); ok {
 		return "Z"
+	}
+	if isFloat(ty) {
+		return "Z" // a float is its IEEE 754 bit pattern; no arithmetic on floats is translated
 	}
 	if isError(ty) {
 		return "option String.string"
